@@ -7,6 +7,7 @@ package main
 
 import (
 	"fmt"
+	"os"
 	"go/ast"
 	"go/token"
 	"go/types"
@@ -369,4 +370,61 @@ func genShared(by map[string]*packages.Package, out string) {
 	}
 	sb.WriteString("]\n\nend GoBT.Gen.Shared\n")
 	writeIfChanged(out+"/Shared.lean", sb.String())
+}
+
+// Gen/Indexing.lean: every index and slice expression (maps excluded) in the non-test sources of
+// bscript/interpreter, as (file, function, expression text).  The model turns each of them into a total
+// operation or an explicit panic outcome; GoBT/Interp/IndexReview.lean records, per function, why.
+func genIndexing(by map[string]*packages.Package, out string) {
+	p := by["interpreter"]
+	var rows []string
+	for _, f := range p.Syntax {
+		fname := p.Fset.Position(f.Pos()).Filename
+		if strings.HasSuffix(fname, "_test.go") {
+			continue
+		}
+		base := fname[strings.LastIndex(fname, "/")+1:]
+		for _, d := range f.Decls {
+			fd, ok := d.(*ast.FuncDecl)
+			if !ok || fd.Body == nil {
+				continue
+			}
+			name := fd.Name.Name
+			if rt := recvTypeName(fd); rt != "" {
+				name = rt + "." + name
+			}
+			ast.Inspect(fd.Body, func(n ast.Node) bool {
+				var x ast.Expr
+				switch e := n.(type) {
+				case *ast.IndexExpr:
+					x = e.X
+				case *ast.SliceExpr:
+					x = e.X
+				default:
+					return true
+				}
+				if tv, ok := p.TypesInfo.Types[x]; ok {
+					if _, isMap := tv.Type.Underlying().(*types.Map); isMap {
+						return true
+					}
+					if _, isSig := tv.Type.Underlying().(*types.Signature); isSig {
+						return true // generic instantiation, not an index
+					}
+				}
+				start, end := p.Fset.Position(n.Pos()).Offset, p.Fset.Position(n.End()).Offset
+				src, err := os.ReadFile(fname)
+				if err != nil {
+					die("%v", err)
+				}
+				rows = append(rows, fmt.Sprintf("(%s, %s, %s)", leanStr(base), leanStr(name), leanStr(strings.Join(strings.Fields(string(src[start:end])), ""))))
+				return true
+			})
+		}
+	}
+	sort.Strings(rows)
+	var sb strings.Builder
+	sb.WriteString("/- GENERATED by /verif/extract from /repo/bscript/interpreter — do not edit. -/\nnamespace GoBT.Gen.Indexing\n\n")
+	sb.WriteString("/-- (file, function, index or slice expression) -/\ndef sites : List (String × String × String) := [\n")
+	sb.WriteString("  " + strings.Join(rows, ",\n  ") + "\n]\n\nend GoBT.Gen.Indexing\n")
+	writeIfChanged(out+"/Indexing.lean", sb.String())
 }
